@@ -3,14 +3,120 @@ package main
 // Property registry. Each property lists its harness dirs and the job table
 // (harness instances = program skeletons with concrete sizes).
 
+import "strconv"
+
+func itoa(n int) string { return strconv.Itoa(n) }
+
 func init() {
 	register(&Property{
-		ID:   "DEV",
+		ID:   "C08",
 		Dirs: []string{"root", "internal/strings"},
 		Jobs: func(tier string) []Job {
-			return []Job{{Harness: "VX_dev_or_isnull"}, {Harness: "VX_C08_pointer"}}
+			L := 2
+			typeSets := []string{"int", "string", "int,float", "string,int", "enum,bool", "float,string"}
+			if tier == "thorough" {
+				L = 3
+				typeSets = append(typeSets, "int,float,bool", "string,enum,int", "bool,int,string")
+			}
+			var jobs []Job
+			for _, ts := range typeSets {
+				for _, cfg := range []string{"none", "order_rev", "order_short", "order_unknown", "enum_unknown", "badtype"} {
+					jobs = append(jobs, Job{Harness: "VX_C08_new", Params: P("types", ts, "L", itoa(L), "cfg", cfg)})
+				}
+			}
+			jobs = append(jobs, Job{Harness: "VX_C08_const"})
+			for n := 0; n <= 3; n++ {
+				jobs = append(jobs, Job{Harness: "VX_C08_name", Params: P("len", itoa(n))})
+			}
+			n, pp := 2, 3
+			if tier == "thorough" {
+				n, pp = 3, 4
+			}
+			for _, op := range []string{"select_perm", "select_unknown", "drop", "drop_none", "slice", "copy_new", "copy_replace", "copy_self", "copy_unknown", "copy_badname"} {
+				jobs = append(jobs, Job{Harness: "VX_C08_project", Params: P("op", op, "n", itoa(n), "P", itoa(pp))})
+			}
+			jobs = append(jobs, Job{Harness: "VX_C08_pointer"})
+			return jobs
 		},
-		Bounds:    func(string) string { return "dev" },
-		TVVectors: 4,
+		Bounds: func(tier string) string {
+			if tier == "thorough" {
+				return "New: 1-3 columns, each length symbolic in 0..3, cells symbolic (strings <=1 byte, nullable), 6 config variants; names of 0-3 symbolic bytes; projections on n=3 of P=4 rows with all five types, Slice bounds over all of int; Pointer over all offsets<2^35, lengths<2^28"
+			}
+			return "New: 1-2 columns, each length symbolic in 0..2, cells symbolic (strings <=1 byte, nullable), 6 config variants; names of 0-3 symbolic bytes; projections on n=2 of P=3 rows with all five types, Slice bounds over all of int; Pointer over all offsets<2^35, lengths<2^28"
+		},
+		Assume:    []string{"names of length 2 that consist of two quote characters are not asserted either way (documentation is silent)", "Drop of an unknown name is not asserted either way"},
+		Outside:   []string{"more than 3 columns or 3 rows", "strings >= 2^28 bytes / blobs >= 2^35 bytes (documented limits)", "Append"},
+		MinReach:  []string{"end-valid", "end-invalid", "slice-valid", "slice-invalid", "end"},
+		TVVectors: 3,
+	})
+}
+
+func init() {
+	register(&Property{
+		ID:   "C03",
+		Dirs: []string{"root", "internal/sort"},
+		Jobs: func(tier string) []Job {
+			var jobs []Job
+			allFlags := []string{"--", "r-", "-n", "rn"}
+			n, pp := 3, 4
+			if tier == "thorough" {
+				n, pp = 4, 5
+			}
+			for _, t := range []string{"int", "float", "bool", "string", "enum"} {
+				for _, fl := range allFlags {
+					nn, ppp := n, pp
+					if t == "string" || t == "enum" {
+						nn, ppp = 3, 3
+					}
+					jobs = append(jobs, Job{Harness: "VX_C03_sort", Params: P("types", t, "flags", fl, "n", itoa(nn), "P", itoa(ppp))})
+				}
+			}
+			for _, ts := range []string{"int,float", "float,int", "bool,float", "float,string", "enum,int"} {
+				for _, fl := range []string{"----", "r--n", "-nr-", "rnrn"} {
+					nn, ppp := 3, 3
+					jobs = append(jobs, Job{Harness: "VX_C03_sort", Params: P("types", ts, "flags", fl, "n", itoa(nn), "P", itoa(ppp))})
+				}
+			}
+			k := func(kernel, mode string, n int) {
+				jobs = append(jobs, Job{Harness: "VX_C03_kernel", Params: P("kernel", kernel, "mode", mode, "n", itoa(n)), MaxPaths: 400000})
+			}
+			k("median3", "any", 3)
+			for n := 2; n <= 5; n++ {
+				k("insertion", "any", n)
+				k("heap", "any", n)
+				k("heap_fallback", "any", n)
+				k("shell", "any", n)
+			}
+			k("shell", "binary", 8)
+			if tier == "thorough" {
+				k("shell", "binary", 12)
+				k("pivot", "binary", 13)
+				k("sort", "binary", 13)
+				k("insertion", "any", 6)
+				k("heap", "any", 6)
+				k("shell", "any", 6)
+				k("shell", "distinct", 7)
+				k("heap", "distinct", 7)
+				k("pivot", "ternary", 13)
+				k("pivot", "binary", 15)
+				k("sort", "binary", 14)
+				k("sort", "binary", 16)
+				k("sort", "few", 20)
+				k("sort", "few", 41)
+				k("sort", "few", 44)
+				k("heap_fallback", "binary", 13)
+			}
+			return jobs
+		},
+		Bounds: func(tier string) string {
+			if tier == "thorough" {
+				return "Sort end to end: 1-2 keys of all five types, all Reverse/NullLast combinations, n<=4 rows of P<=5 (general symbolic keys, nulls, index); sorter kernels under an abstract rank order: insertion/heap/shell n<=6 general, n=7 distinct ranks; doPivot n=13 ternary, n=15 binary; whole Sort n=13-16 binary ranks, n=20/41/44 with all ranks tied except 3 symbolic positions (ninther regime)"
+			}
+			return "Sort end to end: 1-2 keys of all five types, all Reverse/NullLast combinations, n=3 rows of P<=4 (general symbolic keys, nulls, index); sorter kernels under an abstract rank order: insertion/heap/shell n<=5 general ranks, shell pass n=8 binary ranks"
+		},
+		Assume:   []string{"any strict weak order is a rank function (sorter kernels use symbolic integer ranks)", "restricted-key slices (binary/ternary/few) are decided completely inside the slice and are slices of the input space, not the whole of it"},
+		Outside:  []string{"general keys for n >= 7 (8) end to end", "doPivot with general keys for n >= 13", "ninther regime beyond 3 non-tied keys"},
+		MinReach: []string{"end"},
+		TVVectors: 3,
 	})
 }
